@@ -67,24 +67,38 @@ fn install_signal_handlers() {
     }
 }
 
+fn process_cpu_seconds() -> f64 {
+    let mut ts = libc::timespec { tv_sec: 0, tv_nsec: 0 };
+    unsafe {
+        libc::clock_gettime(libc::CLOCK_PROCESS_CPUTIME_ID, &mut ts);
+    }
+    ts.tv_sec as f64 + ts.tv_nsec as f64 * 1e-9
+}
+
+/// A run that never comes back (the real code looping without touching a seam) is reported
+/// by index. The limit is CPU time of this process since the last completed run
+/// (`VERIF_WATCHDOG_S`, default 120 s; the longest legitimate run takes about 10 s), so that
+/// a heavily loaded machine cannot turn a slow run into an alarm; ten times that in
+/// wall-clock time catches a run that is stuck without burning CPU.
 fn start_watchdog() {
-    let limit: u64 = std::env::var("VERIF_WATCHDOG_S").ok().and_then(|s| s.parse().ok()).unwrap_or(90);
+    let limit: f64 = std::env::var("VERIF_WATCHDOG_S").ok().and_then(|s| s.parse().ok()).unwrap_or(120.0);
     std::thread::spawn(move || {
         let mut last = u64::MAX;
-        let mut idle = 0u64;
+        let mut cpu_at_beat = process_cpu_seconds();
+        let mut wall_at_beat = Instant::now();
         loop {
             std::thread::sleep(std::time::Duration::from_secs(1));
             if DONE.load(Ordering::SeqCst) {
                 return;
             }
             let b = BEAT.load(Ordering::SeqCst);
-            if b == last {
-                idle += 1;
-            } else {
-                idle = 0;
+            if b != last {
                 last = b;
+                cpu_at_beat = process_cpu_seconds();
+                wall_at_beat = Instant::now();
+                continue;
             }
-            if idle > limit {
+            if process_cpu_seconds() - cpu_at_beat > limit || wall_at_beat.elapsed().as_secs_f64() > limit * 10.0 {
                 println!("{{\"hung_index\":{}}}", CUR_INDEX.load(Ordering::SeqCst));
                 let _ = std::io::stdout().flush();
                 std::process::exit(4);
